@@ -996,6 +996,9 @@ class Interp(object):
                         return RInt(d, ty)
                     d += 1
             raise Unanalysable('cast %s to %s' % (type(v).__name__, ty))
+        if ty == 'f32':
+            # the evaluator models IEEE doubles only: single-precision arithmetic (rounding after every operation) is outside its envelope
+            raise Unanalysable('cast to f32: single-precision arithmetic is not modelled (the crate computes in f64)')
         if ty in FLOAT_TYPES:
             if isinstance(v, RInt):
                 return float(v.v)
@@ -1239,6 +1242,9 @@ class Interp(object):
         raise ReturnEx(self.eval(e['e'], frame, frame.ret_hint) if e.get('e') else UNIT)
 
     def e_closure(self, e, frame, hint):
+        if e.get('move'):
+            # `move`: captured variables are copied into the closure when it is created; later assignments to the originals are not seen by it
+            return Closure(e['params'], e['body'], [dict(d) for d in frame.vars], frame.self_ty, frame.file)
         return Closure(e['params'], e['body'], list(frame.vars), frame.self_ty, frame.file)
 
     def e_try(self, e, frame, hint):
